@@ -173,11 +173,14 @@ def generate(rnd, tier):
                 "sampler": {"callable": "recording", "inner": {"sampling_method": "replacement", "stratified_sampling": rnd.choice([None, "by_label"])}},
                 "cfg": {"nb_samples": rnd.randint(4, 25), "bootstrap_method": rnd.choice(["quantile", "bca"])}, "arg_types": {}}
                for _ in range(rnd.randint(1, 2))]
-    if rnd.random() < 0.006:
-        # a very fine user grid (more than a thousand support points) on a small data set, identity sampler
-        lo_, n_ = round(rnd.uniform(-8, -4), 2), rnd.randint(1050, 1600)
+    if rnd.random() < 0.01:
+        # a very fine user grid (more than a thousand, every other time more than 2048 support points: beyond any block size a
+        # vectorised envelope would use) on a small data set, identity sampler or recorded resamples
+        lo_, n_ = round(rnd.uniform(-8, -4), 2), rnd.choice([rnd.randint(1050, 1600), rnd.randint(2100, 3300)])
+        smp_ = rnd.choice([{"callable": "identity"}, {"callable": "identity"},
+                           {"callable": "recording", "inner": {"sampling_method": "replacement", "stratified_sampling": rnd.choice([None, "by_label"])}}])
         ops.append({"op": "band", "fn": rnd.choice(["roc_with_ci", "roc_with_ci", "simultaneous_joint_region_ci"]),
-                    "args": {"alpha": 0.1, "thresholds": [round(lo_ + 0.01 * k_, 2) for k_ in range(n_)]}, "sampler": {"callable": "identity"},
+                    "args": {"alpha": 0.1, "thresholds": [round(lo_ + 0.01 * k_, 2) for k_ in range(n_)]}, "sampler": smp_,
                     "cfg": {"nb_samples": 2, "bootstrap_method": "quantile"}, "arg_types": {"thresholds": "ndarray"}})
     if not any(o["op"] == "band" for o in ops):
         ops.append({"op": "band", "fn": "roc_with_ci", "args": {"alpha": 0.05}, "sampler": {"callable": "identity"},
